@@ -237,6 +237,8 @@ fn check_input(input: &[u8], which: &str, failures: &mut Vec<Failure>, runs: &mu
 const TOKENS: &[&str] = &[
     "1", "2", "3", "10", "0", "-1", " ", " ", "\n", "sort", "bitvec", "array", "input", "state", "init", "next", "bad", "constraint", "output", "fair",
     "justice", "add", "not", "ite", "slice", "uext", "const", "constd", "consth", "one", "ones", "zero", "101", "ff", "name", ";", "; c", "x", "eq", "concat",
+    // lane boundaries of the 8-byte lowercase kernel: bytes next to `a`..`z`, upper case, runs of 7, 8 and 9 letters
+    "az", "a`", "z{", "aZ", "abcdefg", "abcdefgh", "abcdefghi", "sort{", "inpuT",
 ];
 const DOCS: &[&str] = &[
     "1 sort bitvec 1\n2 input 1 a ; comment\n3 state 1\n4 init 1 3 2\n5 next 1 3 2\n6 bad 2\n7 constraint 2\n",
